@@ -347,6 +347,98 @@ def gen_q120(rng, quick, consts):
     return cases
 
 
+def gen_nk(rng, quick, consts, bconsts):
+    """raw NTT120 kernels (`pvh avx nk`): twin of the C10.NttAvx lane / whole-kernel theorems.
+    `eq` = the operands are inside the range for which Ref == AVX is PROVED (outside, each implementation is still compared
+    with its own model, and Ref != AVX is the documented behaviour of the lazy kernels)."""
+    cases = []
+    U64 = (1 << 64) - 1
+
+    def word(k, cls):
+        q = Q30[k]
+        qs = q << 33
+        if cls == "canon":
+            return rng.choice([0, 1, q - 1, rng.next() % q])
+        if cls == "q120b":      # documented range of c_from_b / b_to_znx128 / pack: x < q·2^33
+            return rng.choice([0, 1, q - 1, q, 2 * q - 1, (q << 32) - 1, q << 32, qs - 1, rng.next() % qs, rng.next() % qs])
+        if cls == "lazy":       # documented range of the lazy kernels: x < 2·Q_SHIFTED
+            return rng.choice([0, 1, qs - 1, qs, qs + 1, 2 * qs - 1, rng.next() % (2 * qs), rng.next() % (2 * qs)])
+        if cls == "outside":    # >= 2·Q_SHIFTED
+            return rng.choice([2 * qs, 2 * qs + 1, U64, U64 - 1, 2 * qs + rng.next() % (U64 - 2 * qs + 1)])
+        if cls == "max":
+            return U64
+        return rng.next()       # "rand": any u64
+
+    def vec(n, cls):
+        return [word(i % 4, cls) for i in range(4 * n)]
+
+    # whole transforms: EVERY u64 vector
+    ns = [1, 2, 4, 8, 16, 64, 256, 2048] if quick else [1, 2, 4, 8, 16, 32, 64, 128, 256, 512, 1024, 2048, 4096]
+    for n in ns:
+        for cls in (("max", "rand", "q120b") if quick and n > 64 else ("max", "rand", "q120b", "lazy", "outside", "canon")):
+            for op in ("ntt", "intt"):
+                cases.append(dict(line=f"op={op} n={n} x={ints(vec(n, cls))}", fam="nk", op=op, eq=True, key=("nk", op, n, cls)))
+    # the schedule theorem: every split gives the same answer (model side), compared with the implementations
+    for n, splits in ((8, (0, 1, 2, 3)), (32, (0, 2, 5)), (2048, (0, 1, 5, 11))):
+        for sp in splits:
+            for op in ("ntt", "intt"):
+                cases.append(dict(line=f"op={op} n={n} split={sp} x={ints(vec(n, 'rand'))}", fam="nk", op=op + "_split", eq=True,
+                                  key=("nk", op, "split", n, sp)))
+    # lazy arithmetic
+    for rep in range(2 if quick else 12):
+        for op in ("add", "sub", "add_assign", "sub_assign", "sub_negate_assign", "negate", "negate_assign"):
+            for cls in ("lazy", "q120b", "outside", "max", "rand"):
+                n = rng.range(1, 6)
+                xs, ys = vec(n, cls), vec(n, cls if rng.chance(1, 2) else "lazy")
+                inr = cls in ("lazy", "q120b") or (cls == "rand" and all(v < 2 * (Q30[i % 4] << 33) for i, v in enumerate(xs + ys)))
+                cases.append(dict(line=f"op={op} x={ints(xs)} y={ints(ys)}", fam="nk", op=op, eq=inr, key=("nk", op, cls, rep % 4)))
+    # CRT reconstruction
+    for rep in range(3 if quick else 30):
+        for cls in ("q120b", "canon", "lazy", "max", "rand"):
+            n = rng.range(1, 9)
+            cases.append(dict(line=f"op=to_znx128 x={ints(vec(n, cls))}", fam="nk", op="to_znx128", eq=cls in ("q120b", "canon"),
+                              key=("nk", "to_znx128", cls, rep % 4)))
+    # products: arbitrary 64-bit words
+    bbb = " ".join(f"{k}={bconsts.get(v, '-')}" for k, v in (("h", "bbb_h"), ("s1h", "s1h"), ("s2l", "s2l"), ("s2h", "s2h"), ("s3l", "s3l"),
+                                                             ("s3h", "s3h"), ("s4l", "s4l"), ("s4h", "s4h")))
+    bbc = f"h={consts.get('bbc_h', 0)} s2l={consts.get('s2l', '-')} s2h={consts.get('s2h', '-')}"
+    for ell in ([1, 2, 17, 256] if quick else [1, 2, 3, 5, 17, 100, 256, 1000, 4096]):
+        for cls in ("max", "rand", "q120b"):
+            cases.append(dict(line=f"op=mul_bbb x={ints(vec(ell, cls))} y={ints(vec(ell, cls))} {bbb}", fam="nk", op="mul_bbb", eq=True,
+                              key=("nk", "mul_bbb", ell, cls)))
+            cases.append(dict(line=f"op=mul_bbc_x2 x={ints(vec(2 * ell, cls))} y={ints(vec(2 * ell, cls))} {bbc}", fam="nk", op="mul_bbc_x2",
+                              eq=True, key=("nk", "mul_bbc_x2", ell, cls)))
+            cases.append(dict(line=f"op=mul_bbc_2cols x={ints(vec(2 * ell, cls))} y={ints(vec(4 * ell, cls))} {bbc}", fam="nk",
+                              op="mul_bbc_2cols", eq=True, key=("nk", "mul_bbc_2cols", ell, cls)))
+    # pack kernels
+    for rep in range(3 if quick else 20):
+        rows, blk = rng.range(1, 5), rng.range(0, 3)
+        stride = 8 * (blk + 1) + 8 * rng.range(0, 3)
+        ln = stride * (rows - 1) + 8 * blk + 8
+        for cls in ("q120b", "canon", "max", "rand"):
+            mk = lambda: [word(i % 4, cls) for i in range(ln)]  # noqa: E731
+            inr = cls in ("q120b", "canon")
+            cases.append(dict(line=f"op=pack_left rows={rows} stride={stride} blk={blk} x={ints(mk())}", fam="nk", op="pack_left", eq=inr,
+                              key=("nk", "pack_left", cls, rows, blk)))
+            cases.append(dict(line=f"op=pairwise_pack_left rows={rows} stride={stride} blk={blk} x={ints(mk())} y={ints(mk())}", fam="nk",
+                              op="pairwise_pack_left", eq=inr, key=("nk", "pairwise_pack_left", cls, rows, blk)))
+        stride32 = 16 * (blk + 1) + 16 * rng.range(0, 3)
+        ln64 = (stride32 * (rows - 1) + 16 * blk + 16) // 2
+        for cls in ("c", "max", "rand"):
+            def mkc():
+                out = []
+                for i in range(ln64):
+                    q = Q30[i % 4]
+                    r = rng.next() % q
+                    out.append({"c": r | (((r << 32) % q) << 32), "max": U64, "rand": rng.next()}[cls])
+                return out
+            cases.append(dict(line=f"op=pack_right rows={rows} stride={stride32} blk={blk} x={ints(mkc())}", fam="nk", op="pack_right", eq=True,
+                              key=("nk", "pack_right", cls, rows, blk)))
+            cases.append(dict(line=f"op=pairwise_pack_right rows={rows} stride={stride32} blk={blk} x={ints(mkc())} y={ints(mkc())}", fam="nk",
+                              op="pairwise_pack_right", eq=True, key=("nk", "pairwise_pack_right", cls, rows, blk)))
+    return cases
+
+
 COEFF_OPS = ["add_into", "add_assign", "sub", "sub_assign", "sub_negate_assign", "negate", "negate_assign", "add_scalar_into",
              "add_scalar_assign", "sub_scalar", "sub_scalar_assign", "rotate", "rotate_assign", "automorphism",
              "automorphism_assign", "mul_xp_minus_one", "mul_xp_minus_one_assign", "copy", "zero"]
@@ -802,6 +894,53 @@ def run(ctx):
                 broken.append(f"Ref != AVX (q120): {c['line'][:200]}")
                 witness = witness or {"kind": "ref-vs-avx-q120", "request": c["line"][:2000]}
         ctx.cov["q120_requests"] = len(jobs)
+        ctx.cov["kernel_lanes_compared"] = lanes_total
+
+
+        # ---- raw NTT120 kernels (C10.NttAvx.*): BitVec lane model vs navx, C07 reference model vs nref, nref vs navx
+        rc, cb, _ = ctx.run_lines(binp, ["avx"], ["0 nk be=nref op=consts", "1 nk be=navx op=consts"])
+        bconsts = parse_lists(payload(cb[0])) if cb else {}
+        ctx.cov["bbb_meta_dump"] = bconsts
+        if not bconsts or payload(cb[0]) != payload(cb[1]):
+            broken.append(f"BbbMeta dump failed / differs between back ends: {cb}")
+        else:
+            # hypotheses of C10.NttAvx.ntt120_avx_bbb_kernel_eq_ref / ntt120_avx_bbc_kernel_eq_ref on the dumped metas
+            vals = [int(bconsts.get("s1h", 0))] + [int(v) for kk in ("s2l", "s2h", "s3l", "s3h", "s4l", "s4h") for v in bconsts.get(kk, "0").split(",")]
+            if not (int(bconsts.get("bbb_h", 99)) <= 32 and all(v < (1 << 32) for v in vals) and int(consts.get("bbc_h", 99)) <= 32):
+                broken.append(f"BbbMeta / BbcMeta outside the proved range: {bconsts} {consts}")
+        kn = gen_nk(rng.fork(), quick, consts, bconsts)
+        jobs = [(c, be) for c in kn for be in ("nref", "navx")]
+        hl = [f"{i} nk be={be} {c['line']}" for i, (c, be) in enumerate(jobs)]
+        ml = [f"{i} avx nk be={be} {c['line']}" for i, (c, be) in enumerate(jobs)]
+        rc, hout, herr = ctx.run_lines(binp, ["avx"], hl, timeout=3000)
+        rc2, mout, merr = ctx.run_lines(drv, [], ml, timeout=3000)
+        if rc != 0 or len(hout) != len(jobs) or rc2 != 0 or len(mout) != len(jobs):
+            broken.append(f"nk run failed rc={rc}/{rc2} answers={len(hout)}/{len(mout)}/{len(jobs)} {herr[-200:]} {merr[-200:]}")
+        resn = {}
+        outside_diff = 0
+        for i, (c, be) in enumerate(jobs):
+            hh_ = payload(hout[i]) if i < len(hout) else "?"
+            mm_ = payload(mout[i]) if i < len(mout) else "?"
+            resn[(id(c), be)] = hh_
+            ctx.count_case(c["key"] + (be,), nontrivial=not hh_.startswith(("panic", "err", "bad")))
+            bump("kern:nk:" + c["op"])
+            lanes_total += hh_.count(",") + 1
+            if hh_ != mm_ or "stray" in hh_ or hh_.startswith(("panic", "bad")):
+                ctx.disagreements += 1
+                broken.append(f"nk model != implementation: be={be} {c['line'][:160]} impl={hh_[:80]} model={mm_[:80]}")
+                witness = witness or {"kind": "nk-model-vs-impl", "be": be, "request": c["line"][:2000], "impl": hh_[:400], "model": mm_[:400]}
+        for c in kn:
+            same = resn.get((id(c), "nref")) == resn.get((id(c), "navx"))
+            if c["eq"]:
+                ctx.count_case(c["key"] + ("nref=navx",), nontrivial=True)
+                if not same:
+                    ctx.disagreements += 1
+                    broken.append(f"Ref != AVX (nk, inside the proved range): {c['line'][:200]}")
+                    witness = witness or {"kind": "ref-vs-avx-nk", "request": c["line"][:2000]}
+            elif not same:
+                outside_diff += 1
+        ctx.cov["nk_requests"] = len(jobs)
+        ctx.cov["nk_outside_range_ref_avx_differences"] = outside_diff
         ctx.cov["kernel_lanes_compared"] = lanes_total
 
     # ---- gate 3b: HAL operations, scheme programs, sampling on four back ends
